@@ -16,6 +16,19 @@ CLAIMED = {
         note=NOTE_COMMON + " pandas Series(set) raising TypeError and dropna semantics are assumed contracts.",
         technique="contract-based deductive verification: VCs generated from the real AST, discharged by z3 (nlsat)",
         design="5/C16"),
+    "C18": dict(
+        text="isvalidaa / isvalidcdr3 are verified total over the tagged union of Python objects (bool result, exact characterisation for strings, False "
+             "for missing values and numbers). standardize_dataframe is verified for all row counts over three enumerated column layouts x col_mapper "
+             "x all option values: a new table, same rows and index, columns kept in order and renamed by col_mapper, every cell of the nine standard "
+             "columns equal to the documented tidytcells standardiser applied to that cell alone with the documented options (missing stays "
+             "missing; standardize=False: equal to the renamed input), other columns untouched, ValueError exactly when df / df_old are both or "
+             "neither given; the caller's table is never written (frame obligation). multimerge is verified, for 2-4 tables, to apply pandas.merge "
+             "left to right on the index or the named column with how= outer by default or as passed, and with per-table suffixes to key-indexed, "
+             "suffixed tables.",
+        note=NOTE_COMMON + " tidytcells standardisers and pandas.merge / set_index / add_suffix are uninterpreted deterministic functions (pandas.merge "
+             "bound against its real signature, so a mis-bound argument is a TypeError): what they return is not decided.",
+        technique="contract-based deductive verification: VCs from the real AST over a column-wise table model, z3 + cvc5",
+        design="5/C18"),
     "C17": dict(
         text="subsample (numpy repeat/concatenate unpacking, choice without replacement, unique with counts: sorted unique category indices, positive "
              "counts summing to n, each at most the original count - via the Lean counting lemma L-inj-count -, ValueError exactly when n exceeds the "
